@@ -83,7 +83,8 @@ Inductive event :=
 (* markers recorded by the correspondence harness between the storage events; no storage writes *)
 | EAckSent (cid : bytes) (ptype pid reason : N)           (* OnPacketSent: an acknowledgement reached the client *)
 | EProcessed (cid : bytes)                                (* OnPacketProcessed: end of the handling of one inbound packet *)
-| ESuperseded (cid : bytes).                              (* the next event is issued for a client object already taken over *)
+| ESuperseded (cid : bytes)                               (* the next event is issued for a client object already taken over *)
+| ECleanStart (cid : bytes).                              (* the session being established was requested with Clean Start / Clean Session 1 *)
 
 (* ---------- keys ---------- *)
 
@@ -190,6 +191,7 @@ Definition hook_awrites (e : event) : list awr :=
   | EAckSent _ _ _ _ => []
   | EProcessed _ => []
   | ESuperseded _ => []
+  | ECleanStart _ => []
   end.
 
 Definition awrites_of (evs : list event) : list awr := flat_map hook_awrites evs.
